@@ -235,6 +235,7 @@ pub fn declare_counters(ev: &mut Evidence, mode: Mode) {
     "edit_then_undo",
     "dependency_broken_then_healed",
     "rename_onto_existing",
+    "rename_onto_absent_but_imported_name",
     "rename_absent_source",
     "rename_to_self",
     "rename_chain",
